@@ -181,7 +181,8 @@ impl Server {
             .to_key(&self.base_path);
 
         let new_key = self.database.graph().random_key(&current_key.parent());
-        let keys = self.database.graph().keys();
+        // in key order, so that prompts with one title come in one order on every start
+        let keys = self.database.graph().keys().into_iter().sorted().collect_vec();
         keys.iter()
             .filter(|key| {
                 self.configuration
@@ -233,10 +234,12 @@ impl Server {
             .uri
             .to_key(&self.base_path);
 
+        // notes that share a title (or have none) keep key order: the sort by label is stable
         self.database
             .graph()
             .keys()
             .iter()
+            .sorted()
             .map(|key| {
                 key.to_completion(
                     &current_key.parent(),
